@@ -101,10 +101,50 @@ func TestC04(t *testing.T) {
 			}
 		}
 		sm := g.SwitchMessage()
+		injectONFFields(rt, g, sm.Tree)
 		addLabels(c, g.Labels)
 		c.Label("kind=" + sm.Kind)
 		checkParsed(c, rt, sm)
 	})
+}
+
+// injectONFFields adds, to some matches of a switch-originated tree, the two
+// ONF experimenter-class OXMs the library has a decoder for (class 0xffff,
+// experimenter 0x4f4e4600: tcp_flags 42 and actset_output 43 - what an OF1.3
+// switch such as OVS sends for those fields). The library has no constructor
+// for them, so they exist on the wire side only, at any position of the match.
+func injectONFFields(rt *rapid.T, g *gen.G, n *spec.Node) {
+	for _, k := range n.Kids {
+		injectONFFields(rt, g, k)
+	}
+	if n.Kind != "match" || gen.Pick(rt, "onf_fields?", 3) != 0 {
+		return
+	}
+	for i, cnt := 0, 1+gen.Pick(rt, "onf_count", 2); i < cnt; i++ {
+		var f *spec.Node
+		if rapid.Bool().Draw(rt, "onf_tcp_flags") {
+			f = spec.N("oxm", spec.U("class", 0xffff), spec.U("field", 42), spec.U("hasmask", 0), spec.U("experimenter", spec.ONFVendor))
+			v := []byte{byte(g.U8("tf_hi")), byte(g.U8("tf_lo"))}
+			if rapid.Bool().Draw(rt, "onf_masked") {
+				f.Set("hasmask", 1)
+				f.With(spec.B("value", v), spec.B("mask", []byte{byte(g.U8("tm_hi")), byte(g.U8("tm_lo"))}))
+				g.Label("has_mask")
+			} else {
+				f.With(spec.B("value", v), spec.B("mask", nil))
+			}
+			g.Label("field=ONF_tcp_flags")
+		} else {
+			p := g.U32("actset_port")
+			f = spec.N("oxm", spec.U("class", 0xffff), spec.U("field", 43), spec.U("hasmask", 0), spec.U("experimenter", spec.ONFVendor),
+				spec.B("value", []byte{byte(p >> 24), byte(p >> 16), byte(p >> 8), byte(p)}), spec.B("mask", nil))
+			g.Label("field=ONF_actset_output")
+		}
+		pos := gen.Pick(rt, "onf_pos", len(n.Kids)+1)
+		n.Kids = append(n.Kids[:pos], append([]*spec.Node{f}, n.Kids[pos:]...)...)
+		if pos < len(n.Kids)-1 {
+			g.Label("onf_field_not_last")
+		}
+	}
 }
 
 func checkParsed(c *ev.Collector, t ev.Fataler, sm gen.SwitchMsg) {
